@@ -28,20 +28,35 @@ def tag(name):
 
 
 def compare_cell(case, obs):
+    """A cell may stand next to a SECOND unit (field `pre`: an illegal statement / function before or after it).  TLC
+    judges that neighbour on its own (`pok`, `pcodes`); the construct keeps its own verdict (independent constructs
+    are diagnosed independently; a legal construct gets no diagnostic on its line whatever stands next to it)."""
     if obs.get("panic"):
         return ("panic", "the compiler panicked (%s): the verdict of the rule (%s) cannot be observed" %
                 (obs["panic"], "accept" if case["ok"] else "reject with %s" % case["codes"]))
     if obs.get("silent"):
         return ("silent", "compilation failed without any diagnostic")
+    at_line = sorted(set(c for c, l in obs["diags"] if l == obs["line"]))
+    bad_neighbour = not case.get("pok", True)
+    if bad_neighbour:
+        at_pre = sorted(set(c for c, l in obs["diags"] if l == obs.get("pre_line")))
+        if not set(at_pre) & set(case["pcodes"]):
+            return ("neighbour-not-diagnosed", "the illegal unit next to the construct (line %s) must be rejected with one of %s; "
+                    "diagnostics: %s" % (obs.get("pre_line"), case["pcodes"], obs["diags"]))
     if case["unc"]:
         return None
-    at_line = sorted(set(c for c, l in obs["diags"] if l == obs["line"]))
     if case["ok"]:
+        if bad_neighbour:
+            if at_line:
+                return ("rejected-legal", "a legal reference next to an illegal unit is reported: %s" % obs["diags"])
+            return None
         if not obs["ok"]:
             return ("rejected-legal", "a legal reference is rejected: %s" % obs["diags"])
         return None
-    if obs["ok"]:
-        return ("accepted-illegal", "an illegal reference is accepted; the rule demands one of %s" % case["codes"])
+    if obs["ok"] or (bad_neighbour and not at_line):
+        return ("accepted-illegal", "an illegal reference is accepted%s; the rule demands one of %s" %
+                (" (no diagnostic on its line; only its illegal neighbour is reported: %s)" % obs["diags"] if bad_neighbour else "",
+                 case["codes"]))
     if not set(at_line) & set(case["codes"]):
         return ("wrong-code", "rejected, but with %s on the line of the construct (all: %s); the rule names %s" %
                 (at_line, obs["diags"], case["codes"]))
@@ -297,6 +312,13 @@ def run(rep, tier, seed, selftest):
                 "address-of arguments of pointer type with every expression context (parenthesised, element of an array literal "
                 "argument, member of a struct literal argument, argument of a nested call, return value, condition); the callees "
                 "of the CallEffects family place their statement in every statement context; rule and machine ignore the context. "
+                "Dimension audit: further expression contexts (element / member of a literal in an initialiser, the value re-seating "
+                "a pointer, operand of a bit cast, the call as operand of a unary operator / as assigned value, second of two and "
+                "middle of three arguments, the callee called twice in one statement), a second unit next to the construct (legal "
+                "call statement, illegal statement before / after, function with an illegal statement before / after, function that "
+                "mutates a var of the same name; TLC judges the neighbour too), `pub` / `extern` on the enclosing function; "
+                "CallEffects: three parameters with only the middle argument wrong, the address of an element / a member as argument, "
+                "the caller before the callee, the call made twice. "
                 "Non-trivial = distinct cells with a path, an address marker, a pointer/view shape or a rejection. "
                 "Non-interference: TLC enumerates the caller/callee family of CallEffects.tla (7 parameter kinds x 5 ways the "
                 "callee treats the parameter x 0..2 address markers, plus all pairs of parameters), computes verdict and the "
